@@ -93,10 +93,16 @@ def parseSnap (s : String) : Option Snap :=
 
 def stepD (s : State) (a : Action) : State := (step s a).getD s
 
+/-- All remaining `s2prov` steps of the `allGroups` call in progress, at once. -/
+def snapAll (s : State) : State :=
+  match s.sender with
+  | .snapping acc rest => { s with sender := .snapping (rest.foldl (agProv s.targets) acc) [] }
+  | _ => s
+
 /-- The consumer waits; the sender (if triggered) ticks, snapshots and hands over. -/
 def deliver (s : State) : State :=
   let s := stepD s .receive
-  if s.pending then stepD (stepD (stepD s .s1) .s2snap) .s2send else stepD s .leave
+  if s.pending then stepD (snapAll (stepD (stepD s .s1) .s2begin)) .s2send else stepD s .leave
 
 def provOfCfg (s : State) (c : Cfg) : Option Provider := s.providers.find? (fun p => p.cfg == c)
 
